@@ -32,7 +32,8 @@ CONSTANTS Mode,        \* "opcodes" | "operands" | "jumps" | "pool"
           MaxItems,    \* bound on API calls before Generate
           Vals,        \* operand values (both sides of every LEB128 boundary)
           Pads,        \* pad sizes
-          MaxPads, MaxLabels
+          MaxPads, MaxLabels,
+          PoolMax      \* largest run of filler pool entries (moves emit_const_* indices across the boundaries)
 
 -----------------------------------------------------------------------------
 (* opcode table (dora-bytecode/src/opcode.rs; the check compares names and numbers with the current tree) *)
@@ -244,7 +245,7 @@ ManyArgs(n) == <<1, 2, n>> \o [i \in 1..n |-> 200 + i]
 NKind(k) == Cardinality({i \in 1..Len(items) : items[i].k = k})
 LastIs(k) == items # <<>> /\ items[Len(items)].k = k
 Referenced(l) == (\E i \in 1..Len(unres) : unres[i].l = l) \/ (\E i \in 1..Len(tables) : tables[i].d = l \/ \E j \in 1..Len(tables[i].ts) : tables[i].ts[j] = l)
-PoolVals == {x \in Vals : x >= 1 /\ x <= 2097152}
+PoolVals == {x \in Vals : x >= 1 /\ x <= PoolMax}
 
 OpcodesStep ==
   \/ items = <<>> /\ \E op \in AllOps \ (FwdJumps \cup {OpLoop} \cup ConstOps) :
@@ -278,7 +279,7 @@ JumpsStep ==
   \/ \E l \in 1..Len(labels) : EmitLoop(l)
 
 PoolStep ==
-  \/ NKind("cpad") < 1 /\ \E n \in PoolVals : n < 20000 /\ CPad(n)
+  \/ NKind("cpad") < 1 /\ \E n \in PoolVals : CPad(n)
   \/ NKind("const") < 2 /\ \E op \in {31, 35} : EmitConst(op, 1, -5)
   \/ NKind("pad") < MaxPads /\ \E n \in Pads : Pad(n)
   \/ Len(labels) < MaxLabels /\ NoIdleLabel /\ CreateLabel
